@@ -19,10 +19,7 @@ def printableOrLF (t : Str) : Bool :=
     (c = ' ' || !isSpaceChar c))
 
 /-- `norm t = t` (a stored note text is always in normal form). -/
-def isNormal (t : Str) : Bool :=
-  match norm t with
-  | .ok r => r == t
-  | .error _ => false
+def isNormal (t : Str) : Bool := norm t == t
 
 inductive Site where
   | tableNote | columnNote | indexNote | enumItemNote | groupNote | projectNote | sticky
@@ -70,7 +67,8 @@ def siteReason (s : Site) (t : Str) : Option String :=
     else if s.isRaw && multi then some "MultilineRaw"
     else if multi && s.isSetting then some "MultilineSetting"
     else if multi && s = .tableProp then some "MultilineProp"
-    else if multi && (splitNL t).any (fun l => !l.isEmpty && l.all (· = ' ')) then
+    else if multi && ((splitNL t).any (fun l => !l.isEmpty && l.all (· = ' '))
+                      || (splitNL t).all (fun l => l.all (· = ' '))) then
       some "WhitespaceOnlyLine"
     else if !multi && hasTriple t then some "TripleQuote"
     else if multi && trailingQuoteRun t ≥ 3 && trailingQuoteRun t % 3 = 0 then some "TripleQuote"
